@@ -155,6 +155,10 @@ class Unit:
             stale = source.mutable_self_state_read(self.relpath, self.selector)
             res.extra.append(Obligation(f'{self.name}.memoised_result_cannot_outlive_the_state_it_was_computed_from', [], z3.BoolVal(not stale),
                                         'top', {'decorators': memo, 'mutable_state_read': stale}))
+        # a mutable default argument the body changes in place is state shared between calls (defaults are built once, at `def` time)
+        for prm in (source.shared_mutable_defaults(node) if self.stmt is None else []):
+            res.extra.append(Obligation(f'{self.name}.default_argument_is_not_state_shared_between_calls[{getattr(node, "name", "?")}.{prm}]', [],
+                                        z3.BoolVal(False), 'top', {'parameter': prm}))
         obligations = interp.obligations + res.extra
         info = {
             'target': self.target(),
@@ -228,6 +232,11 @@ def run_unit(unit, second_solver=False, timeout_ms=None):
     except source.SelectorError as e:
         out['status'] = 'undecided'
         out['error'] = f'Selector: {e}'
+    except z3.Z3Exception as e:
+        # a value the symbolic encoding cannot represent reached a z3 constructor (e.g. unknown state used as a sequence): the
+        # construct is outside the engine's reach, which is UNDECIDED - not a crash of the check and not a violation
+        out['status'] = 'undecided'
+        out['error'] = f'Unsupported: value outside the symbolic encoding ({str(e)[:120]})'
     except VacuityError as e:
         out['status'] = 'defect'
         out['error'] = str(e)
@@ -245,6 +254,14 @@ def run_unit(unit, second_solver=False, timeout_ms=None):
         if "'Unknown' object" in tb or 'Unknown(' in tb:
             out['status'] = 'undecided'
             out['error'] = 'Unsupported: the sidecar met state it has no model for while evaluating its contract: ' + tb.strip().splitlines()[-1][:200]
+            # obligations the engine itself generated while executing the code are still decided (a refuted one is reported)
+            if interp is not None and interp.obligations:
+                try:
+                    for v in solve.prove_all(interp.obligations, timeout_s=5):
+                        if v.status == 'refuted':
+                            out['verdicts'].append(v.as_dict())
+                except Exception:
+                    pass
         else:
             out['status'] = 'defect'
             out['error'] = 'engine exception: ' + tb
